@@ -238,6 +238,11 @@ def shape_pool(en="E1", sref="Leaf1", uref="U1", tdi="TdI32", tds="TdStr", tdl="
         ("set-btree", st(b("i32"), **{"pilota.rust_type": "btree"}), True),
         ("struct-arc", ref(sref, **{"pilota.rust_wrapper_arc": "true"}), True),
         ("list-struct-arc", lst(ref(sref), **{"pilota.rust_wrapper_arc": "true"}), True),
+        ("enum-arc", ref(en, **{"pilota.rust_wrapper_arc": "true"}), True),
+        ("td-i32-arc", ref(tdi, **{"pilota.rust_wrapper_arc": "true"}), True),
+        ("td-list-arc", ref(tdl, **{"pilota.rust_wrapper_arc": "true"}), True),
+        ("union-arc", ref(uref, **{"pilota.rust_wrapper_arc": "true"}), True),
+        ("map-string-struct-arc", mp(b("string"), ref(sref), **{"pilota.rust_wrapper_arc": "true"}), False),
     ]
     return P
 
